@@ -1765,12 +1765,10 @@ func (h *handler) handleListOffsets(ctx context.Context, header *protocol.Reques
 				p.Timestamp = part.Timestamp
 				p.Offset = offset
 				if header.APIVersion == 0 {
-					max := part.MaxNumOffsets
-					if max <= 0 {
-						max = 1
-					}
-					p.OldStyleOffsets = make([]int64, 0, max)
-					p.OldStyleOffsets = append(p.OldStyleOffsets, offset)
+					// MaxNumOffsets is only an upper bound on how many offsets the
+					// client accepts; exactly one is ever returned, so it must not
+					// be used to size the slice.
+					p.OldStyleOffsets = []int64{offset}
 				}
 			}
 			partitions = append(partitions, p)
